@@ -385,3 +385,399 @@ Proof.
         destruct tws as [|[t2 w2] tws]; [trivial|]. cbn [map fst] in Hadj1. cbn [is_num andb negb] in Hadj1.
         destruct (is_num t2); [discriminate|reflexivity].
 Qed.
+
+(* ================================================================== grammar *)
+
+Lemma jv_ind' (P : jv -> Prop)
+  (Hnull : P JNull) (Hbool : forall b, P (JBool b)) (Hnum : forall l, P (JNum l)) (Hstr : forall s, P (JStr s))
+  (Harr : forall l, Forall P l -> P (JArr l))
+  (Hobj : forall m, Forall (fun kv => P (snd kv)) m -> P (JObj m)) : forall d, P d.
+Proof.
+  fix IH 1. intros [ | b | l | s | l | m ].
+  - exact Hnull.
+  - apply Hbool.
+  - apply Hnum.
+  - apply Hstr.
+  - apply Harr. revert l. fix IHl 1. intros [|x l]; constructor; [apply IH | apply IHl].
+  - apply Hobj. revert m. fix IHm 1. intros [|[k v] m]; constructor; [apply IH | apply IHm].
+Qed.
+
+(* more fuel never changes a result other than "out of fuel" *)
+Lemma pv_mono f :
+  (forall ts res f', pv f ts = res -> res <> PFuel -> (f <= f')%nat -> pv f' ts = res) /\
+  (forall ts acc res f', pelems f ts acc = res -> res <> PFuel -> (f <= f')%nat -> pelems f' ts acc = res) /\
+  (forall ts acc res f', pmembers f ts acc = res -> res <> PFuel -> (f <= f')%nat -> pmembers f' ts acc = res).
+Proof.
+  induction f as [|f [IHv [IHe IHm]]].
+  - repeat split; intros; cbn in *; congruence.
+  - repeat split.
+    + intros ts res f' H Hn Hle. destruct f' as [|f']; [lia|]. assert (Hle' : (f <= f')%nat) by lia.
+      cbn [pv] in *.
+      destruct ts as [|t r]; [exact H|].
+      destruct t; try exact H;
+        (destruct r as [|t2 r2]; [first [exact H | apply (IHm _ _ _ _ H Hn Hle') | apply (IHe _ _ _ _ H Hn Hle')]|]);
+        destruct t2; first [exact H | apply (IHm _ _ _ _ H Hn Hle') | apply (IHe _ _ _ _ H Hn Hle')].
+    + intros ts acc res f' H Hn Hle. destruct f' as [|f']; [lia|]. assert (Hle' : (f <= f')%nat) by lia.
+      cbn [pelems] in *.
+      destruct (pv f ts) as [v r| |] eqn:Ev.
+      * rewrite (IHv _ _ f' Ev ltac:(discriminate) Hle').
+        destruct r as [|t r]; [exact H|]. destruct t; try exact H. apply (IHe _ _ _ _ H Hn Hle').
+      * rewrite (IHv _ _ f' Ev ltac:(discriminate) Hle'). exact H.
+      * congruence.
+    + intros ts acc res f' H Hn Hle. destruct f' as [|f']; [lia|]. assert (Hle' : (f <= f')%nat) by lia.
+      cbn [pmembers] in *.
+      destruct ts as [|t r]; [exact H|]. destruct t; try exact H.
+      destruct r as [|t2 r2]; [exact H|]. destruct t2; try exact H.
+      destruct (pv f r2) as [v r| |] eqn:Ev.
+      * rewrite (IHv _ _ f' Ev ltac:(discriminate) Hle').
+        destruct r as [|t r]; [exact H|]. destruct t; try exact H. apply (IHm _ _ _ _ H Hn Hle').
+      * rewrite (IHv _ _ f' Ev ltac:(discriminate) Hle'). exact H.
+      * congruence.
+Qed.
+
+(* enough fuel is always provided: 2 * tokens + 2 *)
+Lemma pv_fuel f :
+  (forall ts, (2 * length ts < f)%nat -> pv f ts <> PFuel) /\
+  (forall ts acc, (2 * length ts + 1 < f)%nat -> pelems f ts acc <> PFuel) /\
+  (forall ts acc, (2 * length ts + 1 < f)%nat -> pmembers f ts acc <> PFuel) /\
+  (forall ts v r, pv f ts = POk v r -> (length r < length ts)%nat) /\
+  (forall ts acc v r, pelems f ts acc = POk v r -> (length r < length ts)%nat) /\
+  (forall ts acc v r, pmembers f ts acc = POk v r -> (length r < length ts)%nat).
+Proof.
+  induction f as [|f [IHv [IHe [IHm [ILv [ILe ILm]]]]]].
+  - repeat split; intros; cbn in *; try lia; discriminate.
+  - assert (Lv : forall ts v r, pv (S f) ts = POk v r -> (length r < length ts)%nat).
+    { intros ts v r H. cbn [pv] in H.
+      destruct ts as [|t r0]; [discriminate|].
+      destruct t; try discriminate; try (inversion H; subst; cbn; lia);
+        (destruct r0 as [|t2 r2]; [try discriminate; try (apply ILe in H; cbn in *; lia); try (apply ILm in H; cbn in *; lia)|]);
+        destruct t2; try discriminate; try (inversion H; subst; cbn; lia);
+        try (apply ILe in H; cbn in *; lia); try (apply ILm in H; cbn in *; lia). }
+    assert (Le : forall ts acc v r, pelems (S f) ts acc = POk v r -> (length r < length ts)%nat).
+    { intros ts acc v r H. cbn [pelems] in H.
+      destruct (pv f ts) as [v0 r0| |] eqn:Ev; try discriminate. apply ILv in Ev.
+      destruct r0 as [|t r0]; [discriminate|]. destruct t; try discriminate.
+      - inversion H; subst. cbn in *. lia.
+      - apply ILe in H. cbn in *. lia. }
+    assert (Lm : forall ts acc v r, pmembers (S f) ts acc = POk v r -> (length r < length ts)%nat).
+    { intros ts acc v r H. cbn [pmembers] in H.
+      destruct ts as [|t r1]; [discriminate|]. destruct t; try discriminate.
+      destruct r1 as [|t2 r2]; [discriminate|]. destruct t2; try discriminate.
+      destruct (pv f r2) as [v0 r0| |] eqn:Ev; try discriminate. apply ILv in Ev.
+      destruct r0 as [|t r0]; [discriminate|]. destruct t; try discriminate.
+      - inversion H; subst. cbn in *. lia.
+      - apply ILm in H. cbn in *. lia. }
+    repeat split; try assumption.
+    + intros ts Hf. cbn [pv].
+      destruct ts as [|t r0]; [discriminate|].
+      destruct t; try discriminate;
+        (destruct r0 as [|t2 r2]; [try discriminate; try (apply IHe; cbn in *; lia); try (apply IHm; cbn in *; lia)|]);
+        destruct t2; try discriminate; try (apply IHe; cbn in *; lia); try (apply IHm; cbn in *; lia).
+    + intros ts acc Hf. cbn [pelems].
+      destruct (pv f ts) as [v0 r0| |] eqn:Ev.
+      * apply ILv in Ev. destruct r0 as [|t r0]; [discriminate|]. destruct t; try discriminate.
+        apply IHe. cbn in *. lia.
+      * discriminate.
+      * exfalso. revert Ev. apply IHv. lia.
+    + intros ts acc Hf. cbn [pmembers].
+      destruct ts as [|t r1]; [discriminate|]. destruct t; try discriminate.
+      destruct r1 as [|t2 r2]; [discriminate|]. destruct t2; try discriminate.
+      destruct (pv f r2) as [v0 r0| |] eqn:Ev.
+      * apply ILv in Ev. destruct r0 as [|t r0]; [discriminate|]. destruct t; try discriminate.
+        apply IHm. cbn in *. lia.
+      * discriminate.
+      * exfalso. revert Ev. apply IHv. cbn in *. lia.
+Qed.
+
+Lemma pv_fuel_suffices ts : pv (2 * length ts + 2) ts <> PFuel.
+Proof. apply (proj1 (pv_fuel _)). lia. Qed.
+
+(* a value never starts with a closing bracket, a comma or a colon *)
+Definition vstart (t : tok) : Prop :=
+  match t with TRBrace | TRBrack | TComma | TColon => False | _ => True end.
+
+Lemma tokens_of_start d : exists t ts, tokens_of d = t :: ts /\ vstart t.
+Proof. destruct d as [| [|] | | | |]; cbn; eexists; eexists; split; try reflexivity; exact I. Qed.
+
+Definition pv_ok (d : jv) : Prop :=
+  forall rest, exists f0, forall f, (f0 <= f)%nat -> pv f (tokens_of d ++ rest) = POk d rest.
+
+Lemma pelems_ok l : Forall pv_ok l -> l <> [] -> forall acc rest, exists f0, forall f, (f0 <= f)%nat ->
+  pelems f (join_comma (map tokens_of l) ++ TRBrack :: rest) acc = POk (JArr (rev acc ++ l)) rest.
+Proof.
+  induction 1 as [|x l Hx Hl IH]; intros Hne acc rest; [congruence|].
+  destruct l as [|y l].
+  - cbn [map join_comma]. destruct (Hx (TRBrack :: rest)) as [f0 H0]. exists (S f0). intros f Hf.
+    destruct f as [|f]; [lia|]. cbn [pelems]. rewrite H0 by lia. reflexivity.
+  - change (join_comma (map tokens_of (x :: y :: l))) with (tokens_of x ++ TComma :: join_comma (map tokens_of (y :: l))).
+    rewrite <- app_assoc. cbn [app].
+    destruct (Hx (TComma :: join_comma (map tokens_of (y :: l)) ++ TRBrack :: rest)) as [f0 H0].
+    destruct (IH ltac:(discriminate) (x :: acc) rest) as [f1 H1].
+    exists (S (Nat.max f0 f1)). intros f Hf. destruct f as [|f]; [lia|]. cbn [pelems].
+    rewrite H0 by lia. rewrite H1 by lia. cbn [rev]. rewrite <- app_assoc. reflexivity.
+Qed.
+
+Definition mem_toks (kv : list N * jv) : list tok := TStr (fst kv) :: TColon :: tokens_of (snd kv).
+
+Lemma pmembers_ok m : Forall (fun kv => pv_ok (snd kv)) m -> m <> [] -> forall acc rest, exists f0, forall f, (f0 <= f)%nat ->
+  pmembers f (join_comma (map mem_toks m) ++ TRBrace :: rest) acc = POk (JObj (rev acc ++ m)) rest.
+Proof.
+  induction 1 as [|[k v] m Hx Hm IH]; intros Hne acc rest; [congruence|]. cbn [snd] in Hx.
+  destruct m as [|y m].
+  - cbn [map join_comma mem_toks fst snd app]. destruct (Hx (TRBrace :: rest)) as [f0 H0]. exists (S f0). intros f Hf.
+    destruct f as [|f]; [lia|]. cbn [pmembers]. rewrite H0 by lia. reflexivity.
+  - change (join_comma (map mem_toks ((k, v) :: y :: m))) with (mem_toks (k, v) ++ TComma :: join_comma (map mem_toks (y :: m))).
+    rewrite <- app_assoc. cbn [mem_toks fst snd app].
+    destruct (Hx (TComma :: join_comma (map mem_toks (y :: m)) ++ TRBrace :: rest)) as [f0 H0].
+    destruct (IH ltac:(discriminate) ((k, v) :: acc) rest) as [f1 H1].
+    exists (S (Nat.max f0 f1)). intros f Hf. destruct f as [|f]; [lia|]. cbn [pmembers].
+    rewrite H0 by lia. rewrite H1 by lia. cbn [rev]. rewrite <- app_assoc. reflexivity.
+Qed.
+
+Lemma pv_print d : pv_ok d.
+Proof.
+  induction d as [ | b | l | s | l IH | m IH ] using jv_ind'; intros rest.
+  - exists 1%nat. intros [|f] Hf; [lia|]. reflexivity.
+  - exists 1%nat. intros [|f] Hf; [lia|]. destruct b; reflexivity.
+  - exists 1%nat. intros [|f] Hf; [lia|]. reflexivity.
+  - exists 1%nat. intros [|f] Hf; [lia|]. reflexivity.
+  - destruct l as [|x l].
+    + exists 1%nat. intros [|f] Hf; [lia|]. reflexivity.
+    + destruct (pelems_ok (x :: l) IH ltac:(discriminate) [] rest) as [f0 H0].
+      exists (S f0). intros [|f] Hf; [lia|].
+      cbn [tokens_of]. rewrite <- app_comm_cons, <- app_assoc. cbn [app].
+      destruct (tokens_of_start x) as [t [ts [Et Hv]]].
+      assert (E : exists t' ts', join_comma (map tokens_of (x :: l)) ++ TRBrack :: rest = t' :: ts' /\ vstart t').
+      { destruct l; cbn [map join_comma]; rewrite Et; cbn [app]; eauto. }
+      destruct E as [t' [ts' [E Hv']]]. rewrite E in *. cbn [pv].
+      destruct t'; try contradiction; apply H0; lia.
+  - destruct m as [|[k v] m].
+    + exists 1%nat. intros [|f] Hf; [lia|]. reflexivity.
+    + destruct (pmembers_ok ((k, v) :: m) IH ltac:(discriminate) [] rest) as [f0 H0].
+      exists (S f0). intros [|f] Hf; [lia|].
+      cbn [tokens_of]. rewrite <- app_comm_cons, <- app_assoc. cbn [app].
+      change (map (fun kv => TStr (fst kv) :: TColon :: tokens_of (snd kv)) ((k, v) :: m)) with (map mem_toks ((k, v) :: m)).
+      assert (E : exists ts', join_comma (map mem_toks ((k, v) :: m)) ++ TRBrace :: rest = TStr k :: ts').
+      { destruct m; cbn [map join_comma mem_toks fst app]; eauto. }
+      destruct E as [ts' E]. rewrite E in *. cbn [pv]. apply H0. lia.
+Qed.
+
+(* ================================================================== the token list of a DOM *)
+
+Lemma no_adj_cons t a : is_num t = false -> no_adj_num a = true -> no_adj_num (t :: a) = true.
+Proof. intros Ht Ha. cbn [no_adj_num]. rewrite Ht, Ha. reflexivity. Qed.
+
+Lemma no_adj_sep a t b : no_adj_num a = true -> is_num t = false -> no_adj_num (t :: b) = true ->
+  no_adj_num (a ++ t :: b) = true.
+Proof.
+  intros Ha Ht Hb. induction a as [|x a IH]; [exact Hb|].
+  cbn [no_adj_num] in Ha. apply andb_true_iff in Ha. destruct Ha as [H1 H2].
+  cbn [app no_adj_num]. rewrite (IH H2), andb_true_r.
+  destruct a as [|y a]; cbn [app] in *; [rewrite Ht, andb_false_r; reflexivity | exact H1].
+Qed.
+
+Lemma no_adj_end a t : no_adj_num a = true -> is_num t = false -> no_adj_num (a ++ [t]) = true.
+Proof. intros Ha Ht. apply no_adj_sep; [exact Ha | exact Ht |]. cbn. rewrite Ht. reflexivity. Qed.
+
+Definition good (l : list tok) : Prop := forallb tok_okb l = true /\ no_adj_num l = true.
+
+Lemma good_join ls : Forall good ls -> good (join_comma ls).
+Proof.
+  induction 1 as [|x ls Hx Hls IH]; [split; reflexivity|].
+  destruct ls as [|y ls]; [exact Hx|].
+  change (join_comma (x :: y :: ls)) with (x ++ TComma :: join_comma (y :: ls)).
+  destruct Hx as [Hx1 Hx2]. destruct IH as [I1 I2]. split.
+  - rewrite forallb_app'. cbn [forallb tok_okb]. rewrite Hx1, I1. reflexivity.
+  - apply no_adj_sep; [exact Hx2 | reflexivity | apply no_adj_cons; [reflexivity | exact I2]].
+Qed.
+
+Lemma good_tokens d : jwf d -> good (tokens_of d).
+Proof.
+  unfold jwf. induction d as [ | b | l | s | l IH | m IH ] using jv_ind'; intros H.
+  - split; reflexivity.
+  - destruct b; split; reflexivity.
+  - cbn in H. split; cbn; rewrite ?H; reflexivity.
+  - cbn in H. split; cbn; rewrite ?H; reflexivity.
+  - cbn [jwfb] in H. cbn [tokens_of].
+    assert (G : good (join_comma (map tokens_of l))).
+    { apply good_join. induction IH as [|x l Hx _ IHl]; [constructor|].
+      cbn in H. apply andb_true_iff in H. destruct H as [H1 H2]. constructor; [apply Hx; exact H1 | apply IHl; exact H2]. }
+    destruct G as [G1 G2]. split.
+    + cbn [forallb tok_okb]. rewrite forallb_app', G1. reflexivity.
+    + apply no_adj_cons; [reflexivity|]. apply no_adj_end; [exact G2 | reflexivity].
+  - cbn [jwfb] in H. cbn [tokens_of].
+    change (map (fun kv => TStr (fst kv) :: TColon :: tokens_of (snd kv)) m) with (map mem_toks m).
+    assert (G : good (join_comma (map mem_toks m))).
+    { apply good_join. induction IH as [|[k v] m Hx _ IHm]; [constructor|].
+      cbn in H. apply andb_true_iff in H. destruct H as [H1 H2]. apply andb_true_iff in H1. destruct H1 as [Hk Hv].
+      constructor; [|apply IHm; exact H2].
+      cbn [snd] in Hx. destruct (Hx Hv) as [X1 X2]. unfold mem_toks. cbn [fst snd]. split.
+      - cbn [forallb tok_okb]. rewrite Hk, X1. reflexivity.
+      - apply no_adj_cons; [reflexivity|]. apply no_adj_cons; [reflexivity | exact X2]. }
+    destruct G as [G1 G2]. split.
+    + cbn [forallb tok_okb]. rewrite forallb_app', G1. reflexivity.
+    + apply no_adj_cons; [reflexivity|]. apply no_adj_end; [exact G2 | reflexivity].
+Qed.
+
+(* ================================================================== theorems at the code point level *)
+
+Lemma pv_tokens d : pv (2 * length (tokens_of d) + 2) (tokens_of d) = POk d [].
+Proof.
+  destruct (pv_print d []) as [f0 H0]. rewrite app_nil_r in H0.
+  set (F := (2 * length (tokens_of d) + 2)%nat).
+  pose proof (pv_fuel_suffices (tokens_of d)) as Hn. fold F in Hn.
+  pose proof (proj1 (pv_mono F) (tokens_of d) _ (Nat.max f0 F) eq_refl Hn ltac:(lia)) as Hm.
+  rewrite <- Hm. apply H0. lia.
+Qed.
+
+Theorem json_cps_ws d ws0 tws : jwf d -> map fst tws = tokens_of d ->
+  forallb is_ws ws0 = true -> forallb (fun tw => forallb is_ws (snd tw)) tws = true ->
+  json_parse_cps (render_ws ws0 tws) = JOk d.
+Proof.
+  intros Hwf Et Hw0 Hws. destruct (good_tokens d Hwf) as [G1 G2]. rewrite <- Et in G1, G2.
+  unfold json_parse_cps.
+  rewrite (lex_render tws ws0 _ Hw0); [| |exact G2|lia].
+  - rewrite Et, pv_tokens. reflexivity.
+  - clear -G1 Hws. induction tws as [|[t w] tws IH]; [reflexivity|].
+    cbn in *. apply andb_true_iff in G1, Hws. destruct G1 as [A1 A2], Hws as [B1 B2].
+    rewrite A1, B1, (IH B2 A2). reflexivity.
+Qed.
+
+Lemma render_compact ts : render_ws [] (map (fun t => (t, [])) ts) = flat_map tok_text ts.
+Proof.
+  unfold render_ws. cbn [app]. induction ts as [|t ts IH]; [reflexivity|].
+  cbn. rewrite app_nil_r, IH. reflexivity.
+Qed.
+
+Lemma compact_fst (ts : list tok) : map fst (map (fun t => (t, @nil N)) ts) = ts.
+Proof. rewrite map_map. cbn. apply map_id. Qed.
+
+Lemma compact_ws (ts : list tok) : forallb (fun tw : tok * list N => forallb is_ws (snd tw)) (map (fun t => (t, [])) ts) = true.
+Proof. induction ts as [|t ts IH]; [reflexivity|]. cbn. exact IH. Qed.
+
+Theorem json_cps_parse_print d : jwf d -> json_parse_cps (json_print_cps d) = JOk d.
+Proof.
+  intros H. unfold json_print_cps. rewrite <- render_compact.
+  apply json_cps_ws; [exact H | apply compact_fst | reflexivity | apply compact_ws].
+Qed.
+
+(* ================================================================== the byte level (UTF-8) *)
+
+Lemma encs32_id cps : encs W32 cps = cps.
+Proof. induction cps as [|c cps IH]; [reflexivity|]. cbn. unfold encs in IH. rewrite IH. reflexivity. Qed.
+
+Lemma utf8_decode_encs cps : Forall scalar cps -> utf8_decode (encs W8 cps) = Some (Some cps).
+Proof.
+  intros H. unfold utf8_decode. rewrite (transcode_exact' W8 W32 ThrowError [] cps [] H). cbn.
+  rewrite encs32_id. reflexivity.
+Qed.
+
+Lemma json_parse_utf8 cps : Forall scalar cps -> json_parse (encs W8 cps) = json_parse_cps cps.
+Proof. intros H. unfold json_parse. rewrite (utf8_decode_encs cps H). reflexivity. Qed.
+
+Lemma scalar_lt128 c : c < 128 -> scalar c.
+Proof. intros H. unfold scalar, scalarb. lia. Qed.
+
+Lemma forallb_Forall_scalar l : forallb scalarb l = true -> Forall scalar l.
+Proof. intros H. apply Forall_forall. intros x Hx. exact (proj1 (forallb_forall _ _) H x Hx). Qed.
+
+Lemma esc_char_scalar c : scalar c -> Forall scalar (esc_char c).
+Proof.
+  intros Hc. unfold esc_char.
+  destruct (c =? 34); [repeat constructor|].
+  destruct (c =? 92); [repeat constructor|].
+  destruct (c <? 32) eqn:E; [|repeat constructor; exact Hc].
+  repeat constructor; apply scalar_lt128; unfold hexdigit;
+    match goal with |- context [if ?b then _ else _] => destruct b eqn:? end; lia.
+Qed.
+
+Lemma tok_text_scalar t : tok_okb t = true -> Forall scalar (tok_text t).
+Proof.
+  destruct t; cbn [tok_text tok_okb]; intros H; try (repeat constructor; fail).
+  - constructor; [reflexivity|]. apply Forall_app. split; [|repeat constructor].
+    unfold str_body. apply Forall_forall. intros x Hx. apply in_flat_map in Hx. destruct Hx as [c [Hc Hx]].
+    pose proof (esc_char_scalar c (proj1 (forallb_forall _ _) H c Hc)) as Hs.
+    exact (proj1 (Forall_forall _ _) Hs x Hx).
+  - apply num_ok_lex in H. destruct (lex_num_split _ _ _ H) as [_ [Hn _]].
+    apply Forall_forall. intros x Hx. pose proof (proj1 (forallb_forall _ _) Hn x Hx) as Hc.
+    apply scalar_lt128. unfold numch, is_digit in Hc. lia.
+Qed.
+
+Lemma ws_scalar w : forallb is_ws w = true -> Forall scalar w.
+Proof.
+  intros H. apply Forall_forall. intros x Hx. pose proof (proj1 (forallb_forall _ _) H x Hx) as Hc.
+  apply scalar_lt128. unfold is_ws in Hc. lia.
+Qed.
+
+Lemma render_scalar ws0 tws : forallb is_ws ws0 = true ->
+  forallb (fun tw => tok_okb (fst tw) && forallb is_ws (snd tw)) tws = true ->
+  Forall scalar (render_ws ws0 tws).
+Proof.
+  intros H0 H. unfold render_ws. apply Forall_app. split; [apply ws_scalar; exact H0|].
+  apply Forall_forall. intros x Hx. apply in_flat_map in Hx. destruct Hx as [[t w] [Hin Hx]].
+  pose proof (proj1 (forallb_forall _ _) H _ Hin) as Ht. cbn [fst snd] in *. apply andb_true_iff in Ht. destruct Ht as [Ht Hw].
+  apply in_app_or in Hx. destruct Hx as [Hx|Hx].
+  - exact (proj1 (Forall_forall _ _) (tok_text_scalar t Ht) x Hx).
+  - exact (proj1 (Forall_forall _ _) (ws_scalar w Hw) x Hx).
+Qed.
+
+Theorem json_ws_invariance d ws0 tws : jwf d -> map fst tws = tokens_of d ->
+  forallb is_ws ws0 = true -> forallb (fun tw => forallb is_ws (snd tw)) tws = true ->
+  json_parse (encs W8 (render_ws ws0 tws)) = JOk d /\ json_parse (json_print d) = JOk d.
+Proof.
+  intros Hwf Et Hw0 Hws.
+  assert (Hc : forall ws0' tws', map fst tws' = tokens_of d -> forallb is_ws ws0' = true ->
+             forallb (fun tw => forallb is_ws (snd tw)) tws' = true ->
+             json_parse (encs W8 (render_ws ws0' tws')) = JOk d).
+  { intros ws0' tws' Et' Hw0' Hws'. rewrite json_parse_utf8; [apply json_cps_ws; assumption|].
+    apply render_scalar; [exact Hw0'|].
+    destruct (good_tokens d Hwf) as [G1 _]. rewrite <- Et' in G1. clear -G1 Hws'.
+    induction tws' as [|[t w] tws IH]; [reflexivity|].
+    cbn in *. apply andb_true_iff in G1, Hws'. destruct G1 as [A1 A2], Hws' as [B1 B2].
+    rewrite A1, B1, (IH B2 A2). reflexivity. }
+  split; [apply Hc; assumption|].
+  unfold json_print, json_print_cps. rewrite <- render_compact. apply Hc; [apply compact_fst | reflexivity | apply compact_ws].
+Qed.
+
+Theorem json_parse_print d : jwf d -> json_parse (json_print d) = JOk d.
+Proof.
+  intros H.
+  exact (proj2 (json_ws_invariance d [] (map (fun t => (t, [])) (tokens_of d)) H (compact_fst _) eq_refl (compact_ws _))).
+Qed.
+
+(* ================================================================== no fuel is ever exhausted *)
+
+Lemma lcons_fuel t r : r <> LFuel -> lcons t r <> LFuel.
+Proof. destruct r; cbn; congruence. Qed.
+
+Lemma lex_fuel_suffices fuel : forall s, (length s < fuel)%nat -> lex fuel s <> LFuel.
+Proof.
+  induction fuel as [|f IH]; intros s Hf; [lia|].
+  cbn [lex]. destruct s as [|c r]; [discriminate|]. cbn [length] in Hf.
+  destruct (is_ws c); [apply IH; lia|].
+  repeat match goal with
+  | |- (if ?b then _ else _) <> _ => destruct b; [try (apply lcons_fuel, IH; lia)|]
+  end; try discriminate.
+  - destruct (lex_str SN [] r) as [[v r']|] eqn:E; [|discriminate]. apply lex_str_shorter in E. apply lcons_fuel, IH. lia.
+  - destruct (strip_prefix _ r) as [r'|] eqn:E; [|discriminate]. apply strip_prefix_len in E. apply lcons_fuel, IH. lia.
+  - destruct (strip_prefix _ r) as [r'|] eqn:E; [|discriminate]. apply strip_prefix_len in E. apply lcons_fuel, IH. lia.
+  - destruct (strip_prefix _ r) as [r'|] eqn:E; [|discriminate]. apply strip_prefix_len in E. apply lcons_fuel, IH. lia.
+  - destruct (lex_num (c :: r)) as [[l r']|] eqn:E; [|discriminate].
+    destruct (lex_num_split _ _ _ E) as [Es [_ [c' [l' [-> _]]]]].
+    apply lcons_fuel, IH. apply (f_equal (@length N)) in Es. rewrite app_length in Es. cbn in Es. lia.
+Qed.
+
+Theorem json_parse_cps_total s : json_parse_cps s <> JFuel.
+Proof.
+  unfold json_parse_cps. pose proof (lex_fuel_suffices (S (length s)) s ltac:(lia)) as H.
+  destruct (lex (S (length s)) s) as [ts| |]; try discriminate; [|congruence].
+  pose proof (pv_fuel_suffices ts) as H2.
+  destruct (pv (2 * length ts + 2) ts) as [v [|? ?]| |]; try discriminate. congruence.
+Qed.
+
+Theorem json_parse_total bytes : Forall (fun b => b < 256) bytes -> json_parse bytes <> JFuel.
+Proof.
+  intros Hb. unfold json_parse, utf8_decode.
+  destruct (transcode_in_bounds W8 W32 ThrowError [] bytes [] Hb) as [_ [Hc _]].
+  destruct (r_code (transcode W8 W32 ThrowError [] bytes [])); try discriminate; [apply json_parse_cps_total | congruence].
+Qed.
